@@ -144,24 +144,34 @@ def run_check(tier, seed, nworkers=None, nruns=None, budget_s=None, evidence_pat
     by_class = {"std": [i for i in sel if not is_oo_index(i)],
                 "OO": [i for i in sel if is_oo_index(i)]}
     members = {c: [w for w, v in enumerate(vs) if v["class"] == c] for c in by_class}
-    workers = []
+    def launch(assign, deadline, extra_plan=None, recheck_of=None):
+        ws = {}
+        for w, v in enumerate(vs):
+            if not assign.get(w):
+                continue
+            c = v["class"]
+            job = {"seed": seed, "tier": tier, "nruns": nruns, "variant": v,
+                   "recheck": (recheck_of or {}).get(w, []),
+                   "cache_dir": cache_dirs[c],
+                   "peer_cache_dirs": [d for k, d in cache_dirs.items() if k != c],
+                   "replay_dir": replay_dir, "extra_plan": extra_plan or {},
+                   "indices": assign[w], "deadline_s": deadline,
+                   "want_records": want_records}
+            ws[w] = Worker(w, v, job, env, q)
+        return ws
+
+    assign, recheck_of = {}, {}
     for w, v in enumerate(vs):
         c = v["class"]
         pos = members[c].index(w)
         peer = members[c][(pos + 1) % len(members[c])]
         peer_list = by_class[c][members[c].index(peer)::len(members[c])]
-        # determinism sample: two of the peer's runs, from the middle of its list so
-        # that they are executed by the peer even when the wall budget cuts the plan
-        recheck = [peer_list[len(peer_list) // 5], peer_list[len(peer_list) // 3]] \
+        # determinism sample: two of the peer's runs, from the first third of its list
+        # so that the peer executes them even when the wall budget cuts the plan
+        recheck_of[w] = [peer_list[len(peer_list) // 5], peer_list[len(peer_list) // 3]] \
             if len(peer_list) >= 3 else []
-        job = {"seed": seed, "tier": tier, "nruns": nruns, "variant": v,
-               "recheck": recheck,
-               "cache_dir": cache_dirs[c],
-               "peer_cache_dirs": [d for k, d in cache_dirs.items() if k != c],
-               "replay_dir": replay_dir,
-               "indices": by_class[c][pos::len(members[c])], "deadline_s": budget_s,
-               "want_records": want_records}
-        workers.append(Worker(w, v, job, env, q))
+        assign[w] = by_class[c][pos::len(members[c])]
+    workers = launch(assign, budget_s, recheck_of=recheck_of)
     nworkers = len(vs)
 
     agg = {
@@ -174,90 +184,142 @@ def run_check(tier, seed, nworkers=None, nruns=None, budget_s=None, evidence_pat
         "harness_errors": [], "violations": [], "hello": {}, "server_stats": [],
         "deadline_hit": [], "digests": {}, "records": {}, "max_tasks": 0,
         "model_s": 0.0, "sim_s": 0.0, "reruns": {}, "start_failures": {},
+        "identity_reuse": 0, "classes_dropped": 0, "state_probes": {}, "targeted": None,
     }
-    live = set(range(nworkers))
-    last_msg = time.monotonic()
-    stall_limit = 1800
-    while live:
-        try:
-            w, msg = q.get(timeout=30)
-        except queue.Empty:
-            if time.monotonic() - last_msg > stall_limit:
-                agg["harness_errors"].append("no worker output for %ds" % stall_limit)
-                for wk in workers:
-                    wk.proc.kill()
-                break
-            continue
+
+    def collect(workers):
+        live = set(workers)
         last_msg = time.monotonic()
-        ty = msg.get("type")
-        if ty == "hello":
-            agg["hello"][w] = msg
-        elif ty == "run":
-            if "harness_error" in msg:
-                agg["harness_errors"].append("run %d: %s" % (msg["index"], msg["harness_error"]))
-                continue
-            agg["runs"] += 1
-            st = msg["stats"]
-            agg["ops"] += st["ops"]
-            agg["events"] += st["events"]
-            agg["switches"] += st["switches"]
-            agg["ops_suspended"] += st["ops_suspended"]
-            agg["stack_faults_fired"] += st["stack_faults_fired"]
-            agg["i1_checks"] += st["i1_checks"]
-            agg["i1_midop_checks"] += st["i1_midop_checks"]
-            agg["evictions"] += st["evictions"]
-            agg["gc_collects"] += st["gc_collects"]
-            agg["faults_fired"].update(st["faults_fired"])
-            agg["counters"].update(msg["counters"])
-            for k, c in msg["probes"].items():
-                agg["probes"][k] += c
-            agg["scenarios"][msg["scenario"]] += 1
-            agg["configs"][msg["config"]] += 1
-            agg["kinds"].update(msg["kinds"])
-            cov = msg["coverage"]
-            agg["nontrivial"].update(cov["nontrivial"])
-            agg["pairs"].update(cov["pairs"])
-            agg["sites"].update(cov["sites"])
-            agg["fault_sites"].update(cov["fault_sites"])
-            if cov["interleaving"]:
-                agg["interleavings"].add(cov["interleaving"])
-            agg["max_tasks"] = max(agg["max_tasks"], msg.get("ntasks", 0))
-            agg["model_s"] += msg["model_s"]
-            agg["sim_s"] += msg["sim_s"]
-            agg["digests"][msg["index"]] = msg["records_digest"]
-            if want_records:
-                agg["records"][msg["index"]] = msg.get("records")
-            if "sample" in msg and len(agg["samples"]) < 6:
-                agg["samples"].append(msg["sample"])
-            if "violation" in msg:
-                agg["violations"].append(msg)
-                if os.environ.get("SIM_STOP_AT_FIRST"):
-                    agg["stopped_at_first"] = True
-                    for wk in workers:
-                        try:
-                            wk.proc.kill()
-                        except OSError:
-                            pass
+        stall_limit = 1800
+        while live:
+            try:
+                w, msg = q.get(timeout=30)
+            except queue.Empty:
+                if time.monotonic() - last_msg > stall_limit:
+                    agg["harness_errors"].append("no worker output for %ds" % stall_limit)
+                    for wk in workers.values():
+                        wk.proc.kill()
                     break
-        elif ty == "rerun":
-            agg["reruns"][msg["index"]] = msg.get("records_digest")
-        elif ty == "deadline":
-            agg["deadline_hit"].append((w, msg["next_index"]))
-        elif ty == "bye":
-            agg["server_stats"].append(msg["server_stats"])
-        elif ty == "start_failure":
-            agg["start_failures"][w] = msg
-        elif ty == "harness_error":
-            agg["harness_errors"].append("worker %d: %s" % (w, msg["what"]))
-        elif ty == "garbage":
-            agg["harness_errors"].append("worker %d printed: %s" % (w, msg["line"]))
-        elif ty == "exit":
-            live.discard(w)
-            if msg["code"] != 0 and not agg.get("stopped_at_first") and \
-                    w not in agg["start_failures"]:
-                agg["harness_errors"].append(
-                    "worker %d exited with %s: %s" % (w, msg["code"],
-                                                      "".join(workers[w].err)[-1500:]))
+                continue
+            last_msg = time.monotonic()
+            ty = msg.get("type")
+            if ty == "hello":
+                agg["hello"].setdefault(w, msg)
+            elif ty == "run":
+                if "harness_error" in msg:
+                    agg["harness_errors"].append("run %d: %s" % (msg["index"],
+                                                                 msg["harness_error"]))
+                    continue
+                agg["runs"] += 1
+                st = msg["stats"]
+                agg["ops"] += st["ops"]
+                agg["events"] += st["events"]
+                agg["switches"] += st["switches"]
+                agg["ops_suspended"] += st["ops_suspended"]
+                agg["stack_faults_fired"] += st["stack_faults_fired"]
+                agg["i1_checks"] += st["i1_checks"]
+                agg["i1_midop_checks"] += st["i1_midop_checks"]
+                agg["evictions"] += st["evictions"]
+                agg["gc_collects"] += st["gc_collects"]
+                agg["identity_reuse"] += st.get("identity_reuse", 0)
+                agg["classes_dropped"] += st.get("classes_dropped", 0)
+                agg["faults_fired"].update(st["faults_fired"])
+                agg["counters"].update(msg["counters"])
+                for k, c in msg["probes"].items():
+                    if k.startswith("new-name:") and msg["scenario"].startswith("cold"):
+                        continue      # names of modules first imported inside a cold run
+                    agg["probes"][k] += c
+                    # hidden state touched by a warm-server run of one known kind:
+                    # remembered per state key, used to aim the second phase
+                    if msg["scenario"] in ("samekind", "firstuse") and msg.get("focus") and \
+                            k.split(":", 1)[0] in ("slot-filled", "internal-changed",
+                                                   "new-name", "removed-internal"):
+                        agg["state_probes"].setdefault(k, set()).add(msg["focus"])
+                agg["scenarios"][msg["scenario"]] += 1
+                agg["configs"][msg["config"]] += 1
+                agg["kinds"].update(msg["kinds"])
+                cov = msg["coverage"]
+                agg["nontrivial"].update(cov["nontrivial"])
+                agg["pairs"].update(cov["pairs"])
+                agg["sites"].update(cov["sites"])
+                agg["fault_sites"].update(cov["fault_sites"])
+                if cov["interleaving"]:
+                    agg["interleavings"].add(cov["interleaving"])
+                agg["max_tasks"] = max(agg["max_tasks"], msg.get("ntasks", 0))
+                agg["model_s"] += msg["model_s"]
+                agg["sim_s"] += msg["sim_s"]
+                agg["digests"][msg["index"]] = msg["records_digest"]
+                if want_records:
+                    agg["records"][msg["index"]] = msg.get("records")
+                if "sample" in msg and len(agg["samples"]) < 6:
+                    agg["samples"].append(msg["sample"])
+                if "violation" in msg:
+                    agg["violations"].append(msg)
+                    if os.environ.get("SIM_STOP_AT_FIRST"):
+                        agg["stopped_at_first"] = True
+                        for wk in workers.values():
+                            try:
+                                wk.proc.kill()
+                            except OSError:
+                                pass
+                        break
+            elif ty == "rerun":
+                agg["reruns"][msg["index"]] = msg.get("records_digest")
+            elif ty == "deadline":
+                agg["deadline_hit"].append((w, msg["next_index"]))
+            elif ty == "bye":
+                agg["server_stats"].append(msg["server_stats"])
+            elif ty == "start_failure":
+                agg["start_failures"][w] = msg
+            elif ty == "harness_error":
+                agg["harness_errors"].append("worker %d: %s" % (w, msg["what"]))
+            elif ty == "garbage":
+                agg["harness_errors"].append("worker %d printed: %s" % (w, msg["line"]))
+            elif ty == "exit":
+                live.discard(w)
+                if msg["code"] != 0 and not agg.get("stopped_at_first") and \
+                        w not in agg["start_failures"]:
+                    agg["harness_errors"].append(
+                        "worker %d exited with %s: %s" % (w, msg["code"],
+                                                          "".join(workers[w].err)[-1500:]))
+
+    collect(workers)
+
+    # ---- second phase: aim at the operation kinds that touched hidden state -------
+    # (on a tree whose functions keep no state there is nothing to aim at and the
+    # phase is skipped; it changes where the search looks, never the verdict)
+    if agg["state_probes"] and not agg.get("stopped_at_first") and not only and nruns is None:
+        from sim import gen as G
+        chosen = []
+        for key in sorted(agg["state_probes"]):
+            ks = sorted(agg["state_probes"][key],
+                        key=lambda k: (G.BY_KIND[k].cost if k in G.BY_KIND else 1e9, k))
+            for k in ks[:3]:
+                if k in G.BY_KIND and k not in chosen:
+                    chosen.append(k)
+        chosen = sorted(chosen, key=lambda k: (G.BY_KIND[k].cost, k))[:12]
+        extra = {}
+        idx = n
+        for k in chosen:
+            ent = [("soak", k, False), ("soak", k, False),
+                   ("samekind", k, False), ("samekind", k, False), ("samekind", k, True),
+                   ("firstuse", k, True), ("firstuse", k, True), ("firstuse", k, True)]
+            for e in ent:
+                extra[str(idx)] = list(e)
+                idx += 1
+        left = budget_s - (time.monotonic() - t0)
+        std = [w for w, v in enumerate(vs) if v["class"] == "std"
+               and w not in agg["start_failures"]]
+        assign2 = {w: [] for w in std}
+        for j, i in enumerate(range(n, idx)):
+            assign2[std[j % len(std)]].append(i)
+        agg["targeted"] = {"state_keys": {k: sorted(v)[:6]
+                                          for k, v in sorted(agg["state_probes"].items())[:20]},
+                           "kinds": chosen, "runs_planned": idx - n}
+        runs_before = agg["runs"]
+        collect(launch(assign2, max(90.0, left), extra_plan=extra))
+        agg["targeted"]["runs_executed"] = agg["runs"] - runs_before
+        n = idx
     shutil.rmtree(tmp, ignore_errors=True)
     wall = time.monotonic() - t0
     # determinism sample: some runs were executed a second time by another worker
@@ -409,6 +471,8 @@ def write_evidence(path, tier, seed, agg, wall, nviol, vs, nplan):
             "preemption_by_other_caller": int(agg["ops_suspended"]),
             "register_eviction": int(agg["evictions"]),
             "gc_collect": int(agg["gc_collects"]),
+            "adhoc_classes_dropped_and_collected": int(agg["classes_dropped"]),
+            "identity_reuse_forced": int(agg["identity_reuse"]),
             "process_variants": [{"name": v["name"], "hashseed": v["hashseed"],
                                   "flags": v["flags"], "import_order": v["import_order"]}
                                  for v in vs],
@@ -435,6 +499,7 @@ def write_evidence(path, tier, seed, agg, wall, nviol, vs, nplan):
         "i1_snapshot_checks": int(agg["i1_checks"]),
         "i1_checks_while_suspended": int(agg["i1_midop_checks"]),
         "probes": dict(agg["probes"].most_common(30)),
+        "second_phase_aimed_at_hidden_state": agg.get("targeted"),
         "golden": dict(sstats),
         "determinism_sample": {"runs_repeated_by_another_worker": agg.get("reruns_compared", 0),
                                "digest_mismatches": sum(
